@@ -14,7 +14,7 @@ SHARDS = {"quick": 8, "thorough": 16}
 WATCHDOG = {"quick": 900, "thorough": 3000}
 SOAK = {"thorough": ['tests/materiallaws', 'tests/strength']}      # contract soak (pv/contracts_more.py) under the repository's own tests
 REQUIRED_CLASSES = {t: ["k_2=inf", "k_2=k_1", "k_2_finite", "TN_only", "TS_only", "TN_and_TS", "no_scatter",
-                        "native_probability!=0.5", "load==SD_exactly", "load_below_SD", "load_above_SD",
+                        "native_probability!=0.5", "native_and_target_probability_in_the_same_tail", "load==SD_exactly", "load_below_SD", "load_above_SD",
                         "broadcast:curves_x_loads_disjoint", "broadcast:shared_level", "cycles==ND_exactly",
                         "broadcast:per_row_native_probability", "target==one_row_native", "probability:array_containing_native", "arguments:integer_typed",
                         "curve:integer_typed_columns", "curve:integer_k_1_column"]
@@ -69,8 +69,18 @@ def generate(ctx):
             c["TN"] = 1.0
         if rng.random() < 0.4:
             c["failure_probability"] = float(rng.uniform(0.01, 0.99))
-        yield {"curve": c, "p": [float(x) for x in rng.uniform(0.001, 0.999, size=3)],
-               "rseed": int(rng.integers(0, 2**31))}
+        ps = [float(x) for x in rng.uniform(0.001, 0.999, size=3)]
+        if i % 7 == 5:
+            # native and target probabilities far out in the same tail (safety-relevant parts: 1e-6 .. 1e-12; or 1 - 1e-3 .. 1 - 1e-6):
+            # close to each other in absolute terms, far apart in quantiles
+            if rng.random() < 0.6:
+                c["failure_probability"] = float(10 ** -rng.uniform(6, 12))
+                ps = [float(10 ** -rng.uniform(6, 12)), float(10 ** -rng.uniform(6, 12)), ps[2]]
+            else:
+                c["failure_probability"] = float(1 - 10 ** -rng.uniform(3, 6))
+                ps = [float(1 - 10 ** -rng.uniform(3, 6)), float(1 - 10 ** -rng.uniform(3, 6)), ps[2]]
+            c.setdefault("TN", float(rng.uniform(1.5, 12.0)))
+        yield {"curve": c, "p": ps, "rseed": int(rng.integers(0, 2**31))}
 
 
 # ---- own model ------------------------------------------------------------------------------------------------------
@@ -132,6 +142,8 @@ def run_case(case, ctx):
         ("TN" in c, "TS" in c)])
     if p0 != 0.5:
         ctx.tag("native_probability!=0.5")
+    if p0 < 1e-5 or p0 > 1 - 1e-2:
+        ctx.tag("native_and_target_probability_in_the_same_tail")
     ctx.nontrivial(TN > 1 or TS > 1 or not math.isinf(k2))
     ser = pd.Series(c, dtype=float)
     snapshot = ser.copy(deep=True)
@@ -253,7 +265,9 @@ def run_case(case, ctx):
 
     # scatter semantics
     pa, pb = sorted(case["p"][:2])
-    Sabove = SD * 3.0 * TS
+    # a load above the knee of the curve for every probability asked here (the knee moves with the probability; with a native
+    # probability far out in a tail the 90 % knee lies far above the native SD)
+    Sabove = 3.0 * max(_shifted(c, q_)[0] for q_ in (0.9, 0.1, pa, pb))
     na, nb = float(np.asarray(wc.cycles(Sabove, pa))), float(np.asarray(wc.cycles(Sabove, pb)))
     ctx.check("cycles_grow_with_probability", nb >= na * (1 - 1e-12), observed=[na, nb], detail={"p": [pa, pb]})
     n90, n10 = float(np.asarray(wc.cycles(Sabove, 0.9))), float(np.asarray(wc.cycles(Sabove, 0.1)))
